@@ -1788,6 +1788,20 @@ class Exists(QuantifiedConditional):
     getting all the condition values that hold for one specific value of the variable.
     """
 
+    @cached_property
+    def other_variable_ids(self) -> List[int]:
+        """
+        The ids of all variables of the quantified expression and of the condition, except the quantified variable.
+        """
+        variables = HashedIterable()
+        variables.update(self.variable._unique_variables_)
+        variables.update(self.condition._unique_variables_)
+        return [
+            v.id_
+            for v in variables
+            if v.value is not self.variable and not isinstance(v.value, Literal)
+        ]
+
     def _evaluate__(
         self,
         sources: Optional[Dict[int, HashedValue]] = None,
@@ -1795,14 +1809,17 @@ class Exists(QuantifiedConditional):
     ) -> Iterable[OperationResult]:
         sources = sources or {}
         self._eval_parent_ = parent
-        seen_var_values = []
+        seen_bindings = []
         for val in self.condition._evaluate__(sources, parent=self):
             # a false result may have stopped before binding the quantified variable
             if val.is_false:
                 continue
-            var_val = val[self.variable._id_]
-            if var_val.value not in seen_var_values:
-                seen_var_values.append(var_val.value)
+            # one result per binding of the other variables, whichever value of the quantified variable witnesses it
+            other_bindings = {
+                k: v for k, v in val.bindings.items() if k in self.other_variable_ids
+            }
+            if other_bindings not in seen_bindings:
+                seen_bindings.append(other_bindings)
                 yield OperationResult(val.bindings, False, self)
 
     def _invert_(self):
